@@ -101,10 +101,18 @@ func c27Gen(r *vh.Rand, tier string, n int) []c27In {
 	files := []string{"app.desktop", "foo.desktop", "bar.desktop", "other.desktop", "app", "app.v2.desktop", ".desktop", "h2.desktop",
 		"a b.desktop", "a sh -c id x.desktop", "a\tb.desktop", "a\nExec=sh -c id\nX-Y.desktop", "x=y.desktop", "${SNAP}.desktop", "app .desktop", "a0.desktop",
 		"a\" sh -c id \"x.desktop", "a\\\" sh x.desktop", "100%U.desktop", "a%%b c.desktop", "`id`.desktop", "$(id).desktop", "a'b.desktop",
-		"x${SNAP}\"y z.desktop", "a\x7fb.desktop", "a\xc2\x85b.desktop", "a\x01.desktop", "a\xc2b \xff.desktop", "app.desktop.bak", "a;b|c&d.desktop"}
+		"x${SNAP}\"y z.desktop", "a\x7fb.desktop", "a\xc2\x85b.desktop", "a\x01.desktop", "a\xc2b \xff.desktop", "app.desktop.bak", "a;b|c&d.desktop",
+		// a control character FIRST, and names made of control characters only
+		"\nExec=sh -c id #.desktop", "\n[Desktop Entry]\nExec=sh #.desktop", "\rx.desktop", "\tx.desktop", "\x7fx.desktop", "\xc2\x85x.desktop",
+		"\x01app.desktop", "\n.desktop", "\x01\x02.desktop", "\xc2\x85.desktop", "\x7f.desktop", "\n\n.desktop"}
 	// regression case of the repaired finding (commit 0f3f7c0): the file name must stay ONE word of the command line
 	ins = append(ins, c27In{Snap: "foo", Apps: []string{"app"}, File: "a sh -c id x.desktop",
 		Content: c27B("[Desktop Entry]\nName=foo\nExec=not-the-app %U\nExec=foo.app %U\n")})
+	// a file name that STARTS with a line break must be skipped like any other name with a control character
+	ins = append(ins, c27In{Snap: "foo", Apps: []string{"app"}, File: "\nExec=sh -c id #.desktop",
+		Content: c27B("[Desktop Entry]\nExec=foo.app %U\n")})
+	ins = append(ins, c27In{Snap: "foo", Apps: []string{"app"}, File: "\x7fapp.desktop",
+		Content: c27B("[Desktop Entry]\nExec=foo.app\n")})
 	// blanks between = and a valid command with arguments: the arguments must be cut at the right offset
 	ins = append(ins, c27In{Snap: "foo", Apps: []string{"app"}, File: "other.desktop",
 		Content: c27B("[Desktop Entry]\nExec= foo.app %U\nExec=\tfoo.app --x\nExec=  foo.app  y \n")})
